@@ -68,6 +68,12 @@ def task_spec(draw, focus="timing"):
         spec["warmup_iterations"], spec["iterations"] = w, i
         services = SERVICE_ANY
         max_rate = 1000
+        if focus == "control" and draw(st.integers(0, 4)) == 0:
+            # explicit iterations win over a runner that can report completion itself (requires_time_period_schedule): the runner does
+            # not complete within the iterations (never, or only later)
+            spec["op_type"] = "sim-op-completing"
+            spec["runner_completes_after"] = draw(st.sampled_from([None, None, (w or 0) + i + 1, (w or 0) + i + 7]))
+            spec["clients"] = clients = 1
     elif mode == "time":
         if focus == "timing":  # C04 looks at ramped-up clients: their samples carry the instant at which they really were issued
             wtp = draw(st.sampled_from([0.5, 2, 4]))
